@@ -59,6 +59,7 @@ func ruleC12(r *Report) {
 	r.Rule("C12.ids", "every message ID is \"id-\" + hex of randomBytes(n) with constant n >= 16; randomBytes fills a fresh n-byte buffer with io.ReadFull from the configured RandReader and does not return on error", 4)
 	r.Rule("C12.fields", "request/logout message fields come from the documented sources (destination parameter, ACS URL, entity ID or metadata URL, name-ID format, ForceAuthn, RequestedAuthnContext, given IDs)", 8)
 	r.Rule("C12.escape", "the message builders serialise with canonical escaping and the attribute '>' escaper, so CR/TAB/LF and \"]]>\" in name IDs and attribute values survive parsing", 4)
+	r.Rule("C12.endpoint", "the destination getters (SSO, SLO, artifact) return the Location of the IdP-metadata endpoint of that service whose Binding is the requested one, or the empty string — not a ResponseLocation, not another service's endpoint", 2)
 	r.Rule("C12.form-buffer", "the bytes returned by the POST-form builders come from a buffer owned by that call", 1)
 
 	checkC12Query(r, p)
@@ -69,6 +70,7 @@ func ruleC12(r *Report) {
 		return fn.Signature.Recv() != nil && (isMethodOf(fn, "AuthnRequest") || isMethodOf(fn, "LogoutRequest") || isMethodOf(fn, "LogoutResponse")) || isElementSerialiser(p, fn)
 	})
 	checkFormBuffers(r, p)
+	safely(r, func() { checkEndpointGetters(r, p, "C12.endpoint") })
 }
 
 // builders with a relay-state parameter: methods of the outbound message types named Redirect / Post.
@@ -931,6 +933,10 @@ func checkEscape(r *Report, p *Prog, rule string, sel func(*ssa.Function) bool) 
 					if !checkedHelper[info.fn] {
 						checkedHelper[info.fn] = true
 						r.Fn(p.FnName(info.fn))
+						// the bytes it returns are the caller's: not a window into a pooled or package-level buffer that the next
+						// (concurrent) serialisation overwrites
+						checkNoProcessStateFor(r, p, info.fn, rule, "the serialised bytes belong to the call (no pooled or package-level buffer)",
+							"the serialiser uses", "the bytes handed to one caller are overwritten by the next serialisation while they are still being signed, encrypted or parsed: concurrent responses are torn or carry another user's values")
 						esc := "-"
 						if info.escaper != nil {
 							esc = shortFn(info.escaper)
@@ -964,6 +970,7 @@ func checkEscape(r *Report, p *Prog, rule string, sel func(*ssa.Function) bool) 
 									}
 								}
 							}
+							r.Check(quoteDiscipline(info.escaper) == "", rule, fmt.Sprintf("%s: a quoted value ends at the quote character that opened it", p.FnName(info.escaper)), p.Pos(info.escaper.Pos()), "only '\"' delimits, or the opening quote is remembered and compared", quoteDiscipline(info.escaper))
 							r.Check(alias == "", rule, fmt.Sprintf("%s: the escaped copy is built in its own buffer", p.FnName(info.escaper)), p.Pos(info.escaper.Pos()), "no append into a slice of the input", "the output is appended into a slice of the input buffer ("+alias+"): the first expansion makes the writer overtake the reader and the rest of the document is corrupted")
 						}
 					}
@@ -1316,4 +1323,93 @@ func nameIDFormatTable(a *Analysis, alts []fmtAlt) (bool, string) {
 		return false, fmt.Sprintf("alternatives: %d transient, %d configured (expected both)", nT, nF)
 	}
 	return true, ""
+}
+
+// checkEndpointGetters: C12.endpoint. The configured destination of a request is what the three exported getters hand
+// back: the Location of the IdP-metadata endpoint of the right service list whose Binding is the requested one, or "".
+// Followed through the unexported helpers the lookup is split into (region origins); every origin is a load of a
+// Location field reached from IDPMetadata through that list, and the return lies under Binding == the parameter.
+func checkEndpointGetters(r *Report, p *Prog, rule string) {
+	for _, g := range []struct{ name, list string }{
+		{"GetSSOBindingLocation", "SingleSignOnServices"},
+		{"GetSLOBindingLocation", "SingleLogoutServices"},
+		{"GetArtifactBindingLocation", "ArtifactResolutionServices"},
+	} {
+		fn := p.MustFunc("saml", "ServiceProvider", g.name)
+		r.Fn(p.FnName(fn))
+		rg := NewRegion(p, fn, 2)
+		a := NewAnalysis(p)
+		cons := fmt.Sprintf("%s: returns the Location of the %s endpoint with the requested binding", p.FnName(fn), g.list)
+		bad := ""
+		n := 0
+		for _, ret := range returnsOf(fn) {
+			for _, o := range rg.Origins(RV{V: ret.Results[0], C: rg.top}) {
+				if s, ok := constStr(o.V); ok && s == "" {
+					continue
+				}
+				n++
+				ap := rg.Ctx(a, o.C).AP(o.V)
+				if !strings.HasSuffix(ap, ".Location") || !strings.Contains(ap, "IDPMetadata") || !strings.Contains(ap, "."+g.list+"[") {
+					bad = firstNonEmpty(bad, "a value returned is "+ap)
+					continue
+				}
+				// under Binding == binding parameter of the same element
+				elem := strings.TrimSuffix(ap, ".Location")
+				fc := rg.Ctx(a, o.C)
+				fc.ensureConds()
+				var blk *ssa.BasicBlock
+				if in, ok := o.V.(ssa.Instruction); ok {
+					blk = in.Block()
+				}
+				okB := false
+				if blk != nil {
+					for _, nm := range a.B.Support(fc.Cond(blk)) {
+						ai := a.Atoms[nm]
+						if ai == nil || ai.Kind != "eq" || len(ai.Args) != 2 {
+							continue
+						}
+						for i := 0; i < 2; i++ {
+							if ai.Args[i] == elem+".Binding" && fc.Implied(blk, a.B.Var(nm)) {
+								okB = true
+							}
+						}
+					}
+				}
+				if !okB {
+					bad = firstNonEmpty(bad, "the Location of "+elem+" is returned without comparing its Binding")
+				}
+			}
+		}
+		r.Check(n > 0 && bad == "", rule, cons, p.Pos(fn.Pos()), fmt.Sprintf("%d origin(s), each the Location field of a matching element", n), "the destination handed to the message builders is not the configured Location: "+bad)
+	}
+}
+
+// quoteDiscipline: the attribute-value scanner of the '>' escaper. The writer delimits attribute values with '"' and
+// leaves apostrophes inside them raw, so a scanner that also treats '\” as a delimiter must remember which character
+// opened the value and end it only at the same one (a comparison between the current byte and a remembered byte);
+// otherwise an apostrophe inside a value flips its notion of inside/outside for the rest of the document.
+func quoteDiscipline(fn *ssa.Function) string {
+	apos, remembered := false, false
+	for _, b := range fn.Blocks {
+		for _, in := range b.Instrs {
+			bo, ok := in.(*ssa.BinOp)
+			if !ok || (bo.Op != token.EQL && bo.Op != token.NEQ) {
+				continue
+			}
+			kx, okx := constInt(bo.X)
+			ky, oky := constInt(bo.Y)
+			switch {
+			case okx && kx == 39 || oky && ky == 39:
+				apos = true
+			case !okx && !oky:
+				if bt, ok := bo.X.Type().Underlying().(*types.Basic); ok && bt.Kind() == types.Uint8 {
+					remembered = true
+				}
+			}
+		}
+	}
+	if apos && !remembered {
+		return "the scanner treats the apostrophe as a delimiter but never compares the current byte with the quote that opened the value: an apostrophe inside a double-quoted attribute value (which the writer leaves raw) inverts its inside/outside state, so a later \"]]>\" stays unescaped or a tag's own '>' is rewritten"
+	}
+	return ""
 }
